@@ -232,14 +232,7 @@ Lemma infer_some t : spec_ty t = true -> infer t <> None.
 Proof. intros H. destruct (infer_spec t H) as (t' & -> & _). discriminate. Qed.
 
 Lemma bnt_spec_ty op lt rt : spec_ty lt = true -> spec_ty rt = true -> spec_ty (binary_node_type op lt rt) = true.
-Proof.
-  intros Hl Hr. unfold binary_node_type.
-  destruct (is_comparison op); simpl.
-  - reflexivity.
-  - destruct (is_empty_arr lt && is_plus op).
-    + destruct (is_array_name rt && fixed rt); [rewrite (proj1 (fixed_type_keeps rt))|]; exact Hr.
-    + destruct (is_array_name lt && fixed rt); [rewrite (proj1 (fixed_type_keeps lt))|]; exact Hl.
-Qed.
+Proof. exact (binary_node_type_spec_ty op lt rt). Qed.
 
 Lemma erase_empty_arr t : spec_ty t = true -> erase t = SEmptyArr -> t = TEmptyArr.
 Proof. destruct t; simpl; intros; try discriminate; reflexivity. Qed.
